@@ -201,6 +201,16 @@ def dataU32 : Bytes → Option Nat
   | a :: b :: c :: d :: _ => some (le32 a b c d)
   | _ => none
 
+/-- the label bookkeeping of the first pass for one instruction: a JUMP/JUMPIF target not yet
+    in `labels` gets the next label number (`len(labels)`) -/
+def stepLabels (labels : List (Nat × Nat)) (inst : Inst) : Except PErr (List (Nat × Nat)) :=
+  if isJump inst.op then
+    match dataU32 inst.data with
+    | none => .error .panic
+    | some addr =>
+      if (labels.lookup addr).isSome then .ok labels else .ok (labels ++ [(addr, labels.length)])
+  else .ok labels
+
 /-- first pass of Disassemble: parse, collecting `labels` (target address ↦ label number,
     in order of first appearance).  `i += inst.Len` is an unchecked uint32 addition. -/
 def disPass1 (prog : Bytes) : Nat → Nat → List (Nat × Nat) → Except PErr (List Inst × List (Nat × Nat))
@@ -210,14 +220,7 @@ def disPass1 (prog : Bytes) : Nat → Nat → List (Nat × Nat) → Except PErr 
       match parseOp prog i with
       | .error e => .error e
       | .ok inst =>
-        let labels' : Except PErr (List (Nat × Nat)) :=
-          if isJump inst.op then
-            match dataU32 inst.data with
-            | none => .error .panic
-            | some addr =>
-              if (labels.lookup addr).isSome then .ok labels else .ok (labels ++ [(addr, labels.length)])
-          else .ok labels
-        match labels' with
+        match stepLabels labels inst with
         | .error e => .error e
         | .ok ls =>
           match disPass1 prog fuel (u32 (i + inst.len)) ls with
